@@ -434,3 +434,64 @@ def k6(ctx):
 def k7(ctx):
     from .c05 import l0
     return l0(ctx)
+
+
+def private_tree_obligations(ctx):
+    """The tree object BareGitStore edits in place is private to the call: _get_current_tree() returns, on every path,
+    an object it obtained in that very call (Tree() / a lookup in the repository) - never one kept in an attribute,
+    a module-level object or the result of a memoising function."""
+    from ..dataflow import origins
+    obs = []
+    gt = ctx.own_method(BARE, "_get_current_tree")
+    cfg = ctx.cfg(gt)
+    du = DefUse(cfg)
+    rets = [n for n in cfg.nodes if n.kind == "return" and n.ast.value is not None]
+    if not rets:
+        raise AnalysisError("BareGitStore._get_current_tree has no return")
+
+    def fresh(o) -> bool:
+        v = o.leaf
+        if o.kind != "expr" or v is None or o.path:
+            return False
+        if isinstance(v, ast.Call) and dotted(v.func) in ("Tree", "dulwich.objects.Tree"):
+            return True
+        if isinstance(v, ast.Subscript) and (dotted(v.value) or "").startswith("self.repo"):
+            return True
+        return False
+
+    for r in rets:
+        os_ = origins(du, r, r.ast.value)
+        bad = [o for o in os_ if not fresh(o)]
+        what = ", ".join(sorted({src(o.leaf) if o.leaf is not None else (o.name or "?") for o in bad}))
+        obs.append(ctx.ob(bool(os_) and not bad, gt.qualname, where(gt, r), "current tree is a private object",
+                          "returns Tree() or an object looked up in the repository in this call",
+                          "_get_current_tree returns `%s` (%s), an object that outlives the call: _import_one / delete_one edit the tree in place before "
+                          "committing, so a write that fails (or another collection's write) leaves its entry in the shared tree and later requests "
+                          "serve or commit it" % (src(r.ast.value), what)))
+    # the callers edit exactly what _get_current_tree() handed them
+    for nm in ("_import_one", "delete_one"):
+        f = ctx.own_method(BARE, nm)
+        cfgf = ctx.cfg(f)
+        duf = DefUse(cfgf)
+        edits = []
+        for n in cfgf.stmt_nodes():
+            if n.kind == "stmt" and isinstance(n.ast, (ast.Assign, ast.Delete)):
+                for t in n.ast.targets:
+                    if isinstance(t, ast.Subscript) and isinstance(t.value, ast.Name):
+                        edits.append((n, t.value))
+        if not edits:
+            raise AnalysisError("%s.%s: no in-place edit of the tree found" % (BARE, nm))
+        for n, base in edits:
+            os_ = origins(duf, n, base)
+            ok = bool(os_) and all(o.kind == "expr" and isinstance(o.leaf, ast.Call) and dotted(o.leaf.func) == "self._get_current_tree" for o in os_)
+            obs.append(ctx.ob(ok, f.qualname, where(f, n), "edits the tree obtained from _get_current_tree()",
+                              "`%s` edits the result of self._get_current_tree()" % node_desc(n),
+                              "`%s` edits an object that does not come from self._get_current_tree() in this call" % node_desc(n)))
+    return obs
+
+
+@rule("C09", "K8", floor=4, kind="S",
+      desc="bare store: the tree that is edited in place and committed is private to the write (a fresh Tree() or an "
+           "object just read from the repository), so a failed write or another collection cannot leave entries in it")
+def k8(ctx):
+    return private_tree_obligations(ctx)
